@@ -68,11 +68,11 @@ type Conn struct {
 	// RemoveBeganAt: the sequence number at which it was called (the removal proper: after the wait
 	// for the lifecycle lock and, with QuiesceOwnTraffic, for the connection's own traffic)
 	RemoveBeganAt uint64
-	OnWrite   func(s *Sent)
-	Misbehave bool // allow reordering within the connection
-	Handling  bool
-	InFlight  bool // a payload has left the queue and its handling has not finished
-	task      *simrt.Task
+	OnWrite       func(s *Sent)
+	Misbehave     bool // allow reordering within the connection
+	Handling      bool
+	InFlight      bool // a payload has left the queue and its handling has not finished
+	task          *simrt.Task
 	// BeforeDeliver lets a scenario observe state right before a message is handled
 	BeforeDeliver func(d *Delivery)
 	AfterDeliver  func(d *Delivery)
@@ -223,7 +223,7 @@ type Node struct {
 	// "while messages of other peers are being processed"; what a request that overlaps the
 	// removal of its own connection leaves behind is undecided, see DESIGN 10.4)
 	QuiesceOwnTraffic bool
-	Ents  []*LEnt          // the harness's record of the local tree (entity 0 first)
+	Ents              []*LEnt // the harness's record of the local tree (entity 0 first)
 }
 
 //go:norace
